@@ -3,6 +3,7 @@
                                         (31 = the fixed code = `canon`, 0 = the unfixed tree = `canon_today`)
        -> ( ok x<canonical bytes> ) | ( err <kind> ) | ( err panic )
      c07 norm x<json text>  -> ( ok x<print (norm (parse text))> ) | ( err <kind> )   (the specification reading)
+     c07 premise x<json text> -> 1 | 0 | ( err <kind> ): floats_okb (parse text), the premise of the round-trip theorems
    Same operation names as harness/c07.go (which ignores the flags). *)
 From Coq Require Import ZArith List String Bool.
 From Verif Require Import Base.Wire Json.Json Json.C14n.
@@ -33,6 +34,13 @@ Definition run_c07 (args : list V) : list V :=
       enc_result (canon_at (cfg_of_flags (vz (nth 0 rest (VI 0)))) (vs_ (nth 1 rest (VS []))))
     else if String.eqb op "norm" then
       enc_result (bind (parse (vs_ (nth 0 rest (VS [])))) (fun v => print (norm v)))
+    else if String.eqb op "premise" then
+      (* the computable float premise of the round-trip theorems on the value read from the text *)
+      match parse (vs_ (nth 0 rest (VS []))) with
+      | Ok v => [VB (floats_okb v)]
+      | Err k => [verr (kind_name k)]
+      | Panic => [verr "panic"]
+      end
     else [verr "unknown-c07-op"]
   | [] => [verr "unknown-c07-op"]
   end.
